@@ -302,8 +302,17 @@ func (r *resolver) applyDeviation(y *Module, d *Deviation) error {
 		case *Notification:
 			notifs := target.Parent().(HasNotifications).Notifications()
 			delete(notifs, target.Ident())
+		case *ChoiceCase:
+			choice, isChoice := target.Parent().(*Choice)
+			if !isChoice {
+				return fmt.Errorf("%s - cannot remove case from %T", d.Ident(), target.Parent())
+			}
+			delete(choice.cases, target.Ident())
 		default:
-			hasDDefs := target.Parent().(HasDataDefinitions)
+			hasDDefs, valid := target.Parent().(HasDataDefinitions)
+			if !valid {
+				return fmt.Errorf("%s - cannot remove node from %T", d.Ident(), target.Parent())
+			}
 			existing := hasDDefs.popDataDefinitions()
 			for _, candidate := range existing {
 				if candidate != target {
